@@ -767,13 +767,13 @@ func (p *Plugin) Do(event *pipeline.Event) pipeline.ActionResult {
 
 	switch p.config.Decoder_ {
 	case decJson:
-		p.decodeJson(event.Root, fieldNode, event.Buf)
+		event.Buf = p.decodeJson(event.Root, fieldNode, event.Buf)
 	case decPostgres:
 		p.decodePostgres(event.Root, fieldNode)
 	case decNginxError:
 		p.decodeNginxError(event.Root, fieldNode)
 	case decProtobuf:
-		p.decodeProtobuf(event.Root, fieldNode, event.Buf)
+		event.Buf = p.decodeProtobuf(event.Root, fieldNode, event.Buf)
 	case decSyslogRFC3164:
 		p.decodeSyslogRFC3164(event.Root, fieldNode)
 	case decSyslogRFC5424:
@@ -785,14 +785,16 @@ func (p *Plugin) Do(event *pipeline.Event) pipeline.ActionResult {
 	return pipeline.ActionPass
 }
 
-func (p *Plugin) decodeJson(root *insaneJSON.Root, node *insaneJSON.Node, buf []byte) {
+// decodeJson returns buf extended by the field names it stored there (the caller keeps it in event.Buf,
+// so that the next action appending to event.Buf does not overwrite them).
+func (p *Plugin) decodeJson(root *insaneJSON.Root, node *insaneJSON.Node, buf []byte) []byte {
 	jsonNodeRaw, err := p.decoder.Decode(node.AsBytes(), root)
 	if p.checkError(err, node) {
-		return
+		return buf
 	}
 	jsonNode := jsonNodeRaw.(*insaneJSON.Node)
 	if !jsonNode.IsObject() {
-		return
+		return buf
 	}
 
 	if p.config.Prefix != "" {
@@ -810,6 +812,7 @@ func (p *Plugin) decodeJson(root *insaneJSON.Root, node *insaneJSON.Node, buf []
 	}
 
 	pipeline.MergeToRoot(root, jsonNode)
+	return buf
 }
 
 func (p *Plugin) decodePostgres(root *insaneJSON.Root, node *insaneJSON.Node) {
@@ -857,14 +860,15 @@ func (p *Plugin) decodeNginxError(root *insaneJSON.Root, node *insaneJSON.Node) 
 	}
 }
 
-func (p *Plugin) decodeProtobuf(root *insaneJSON.Root, node *insaneJSON.Node, buf []byte) {
+// decodeProtobuf returns buf extended by the field names it stored there (see decodeJson).
+func (p *Plugin) decodeProtobuf(root *insaneJSON.Root, node *insaneJSON.Node, buf []byte) []byte {
 	jsonRaw, err := p.decoder.Decode(node.AsBytes())
 	if p.checkError(err, node) {
-		return
+		return buf
 	}
 	t, err := root.DecodeBytesAdditional(jsonRaw.([]byte))
 	if p.checkError(err, node) {
-		return
+		return buf
 	}
 
 	if p.config.Prefix != "" {
@@ -882,6 +886,7 @@ func (p *Plugin) decodeProtobuf(root *insaneJSON.Root, node *insaneJSON.Node, bu
 	}
 
 	pipeline.MergeToRoot(root, t)
+	return buf
 }
 
 func (p *Plugin) decodeSyslogRFC3164(root *insaneJSON.Root, node *insaneJSON.Node) {
